@@ -99,7 +99,7 @@ type c17Timer struct {
 }
 
 func runC17(c *vk.Ctx) {
-	c.R.Rule = "cases = block-time sequences (regular, jittered, multi-epoch gaps, equal times, times before the start time) over 1-6 timers with durations 1s..1 week and 1-4 scripted subscribers whose outcome at each signal (success / error / string, error or runtime panic / out-of-gas on the block's meter, on a nested tighter meter or by overflowing the gas counter, each after 0-3 partial writes) is drawn from the seed; a quarter of the sequences also export the module and re-import it through InitGenesis at arbitrary (late) blocks; after every block the epoch infos, the hook call trace and each subscriber's key space are compared with the model. distinct_nontrivial counts distinct (#timers ticking in the block, initial-start?, multiset of subscriber outcomes in the block, block result) tuples."
+	c.R.Rule = "cases = block-time sequences (regular, jittered, multi-epoch gaps, equal times, times before the start time) over 1-6 timers with durations 1s..1 week and 1-4 scripted subscribers whose outcome at each signal (success / error / string, error or runtime panic / out-of-gas on the block's meter, on a nested tighter meter or by overflowing the gas counter, each after 0-3 partial writes) is drawn from the seed; timers are also registered on the running chain (AddEpochInfo after begin-blockers have run, as upgrade handlers do); a quarter of the sequences also export the module and re-import it through InitGenesis at arbitrary (late) blocks; after every block the epoch infos, the hook call trace and each subscriber's key space are compared with the model. distinct_nontrivial counts distinct (#timers ticking in the block, initial-start?, multiset of subscriber outcomes in the block, block result) tuples."
 	nSeq := c.N(2000, 40000)
 	nBlocks := c.N(200, 400)
 	c.Cases("sequence", nSeq, func(i int, r *vk.Rng) {
@@ -120,6 +120,7 @@ func runC17(c *vk.Ctx) {
 		}
 		failProb := []int{0, 10, 30, 60}[r.Intn(4)]
 		unlimitedMeter := r.Intn(3) == 0
+		lateTimers := 0
 		var blockRng *vk.Rng
 		outcomesSeen := map[int]int{}
 		script := func(call c17Call) (int, int) {
@@ -227,6 +228,34 @@ func runC17(c *vk.Ctx) {
 				}
 				c.Logf("re-imported %d timers at h=%d t=+%s", len(gs.Epochs), height, now.Sub(t0))
 				c.Count("reimports", 1)
+			}
+			if b > 2 && lateTimers < 2 && r.Intn(50) == 0 {
+				// a timer registered on the running chain (the way an upgrade handler does it), after begin-blockers have
+				// already run in this process; identifiers sort before or after the existing ones
+				lateTimers++
+				id := fmt.Sprintf("%s%d", []string{"a", "u"}[r.Intn(2)], lateTimers)
+				d := durs[r.Intn(len(durs))]
+				var st time.Time
+				switch r.Intn(3) {
+				case 0: // zero start => block time at registration
+				case 1:
+					st = now.Add(-time.Duration(r.I64n(int64(3 * d))))
+				default:
+					st = now.Add(time.Duration(r.I64n(int64(3*d) + 1)))
+				}
+				actx := ctx.WithBlockTime(now).WithBlockHeight(height)
+				if err := k.AddEpochInfo(actx, epochstypes.EpochInfo{Identifier: id, StartTime: st, Duration: d}); err != nil {
+					c.Violate("C17.setup", nil, "AddEpochInfo on the running chain: %v", err)
+					return
+				}
+				if st.IsZero() {
+					st = now
+				}
+				timers[id] = &c17Timer{id: id, start: st, dur: d, startH: height}
+				ids = append(ids, id)
+				sort.Strings(ids)
+				c.Logf("timer %s registered at h=%d (start %+d ns, duration %s)", id, height, st.Sub(now), d)
+				c.Count("late_timers", 1)
 			}
 			bctx := ctx.WithBlockTime(now).WithBlockHeight(height).WithGasMeter(storetypes.NewGasMeter(1_000_000_000))
 			if unlimitedMeter {
